@@ -212,10 +212,10 @@ def handle : Handler
       match checkOutput (← c.toNat?) (← natList? y) with
       | .ok _ => some "ok"
       | .error e => some (showErr e)) "bad-args"
-  | "c19.sample", [n, ip, ix, dt, ch] => some <| Option.getD (do
+  | "c19.sample", [n, m, ip, ix, dt, ch] => some <| Option.getD (do
       let n ← n.toNat?
       let rows := csrRows n (← natList? ip) (← natList? ix) (← bitsList? dt)
-      some ("ok " ++ showListList (sampleRows rows (← rows? n ch)))) "bad-args"
+      some ("ok " ++ showListList (sampleRows (← m.toNat?) rows (← rows? n ch)))) "bad-args"
   | "c19.contract_choice", [n, degs, k, ch] => some <| Option.getD (do
       let n ← n.toNat?
       let degs ← natList? degs
@@ -223,24 +223,18 @@ def handle : Handler
       let ch ← rows? n ch
       let ok := ch.length == n && degs.length == n && (List.range n).all fun i => choiceOk (degs.getD i 0) k (ch.getD i [])
       some (if ok then "holds" else "fails")) "bad-args"
-  -- a sampled row is a sublist of the stored non-zero row (storage order), of size min(#non-zero, k)
-  | "c19.spec_sample", [n, ip, ix, dt, k, rows] => some <| Option.getD (do
+  -- a sampled row (sorted) is a sublist of the neighbours of the node (columns with a non-zero entry of the matrix the
+  -- container denotes, duplicates summed), of size min(#neighbours, k)
+  | "c19.spec_sample", [n, m, ip, ix, dt, k, rows] => some <| Option.getD (do
       let n ← n.toNat?
+      let m ← m.toNat?
       let orig := csrRows n (← natList? ip) (← natList? ix) (← bitsList? dt)
       let k ← k.toNat?
       let rows ← rows? n rows
       let ok := rows.length == n && (List.range n).all fun i =>
-        Spec.sampleRowOk (((orig.getD i []).filter fun e => e.2 != 0).map (·.1)) (rows.getD i []) k
+        Spec.sampleRowOk (neighbours m (orig.getD i [])) (sortNat (rows.getD i [])) k
       some (if ok then "holds" else "fails")) "bad-args"
-  -- the same up to the order inside a row (the container handed to `fit` may be stored in another order)
-  | "c19.spec_sample_set", [n, ip, ix, dt, k, rows] => some <| Option.getD (do
-      let n ← n.toNat?
-      let orig := csrRows n (← natList? ip) (← natList? ix) (← bitsList? dt)
-      let k ← k.toNat?
-      let rows ← rows? n rows
-      let ok := rows.length == n && (List.range n).all fun i =>
-        Spec.sampleRowOk (sortNat (((orig.getD i []).filter fun e => e.2 != 0).map (·.1))) (sortNat (rows.getD i [])) k
-      some (if ok then "holds" else "fails")) "bad-args"
+  | "c19.is_sage", [t] => some (showBool (isSageType (unq t)))
   | _, _ => none
 
 end SkNet.Drive.C19
